@@ -1,7 +1,7 @@
 """C09 - timers never fire early; the loop never sleeps past the next expiry."""
 from engine.qb import (cmp_forms, AnalysisBroken, estr, unwrap, cval, walk, last_field, fields_of, callee_of, mentions_var,
                        atoms_of, var_ranges)
-from rules.common import field_is, has_call, value_sources, some_source, derives
+from rules.common import field_is, has_call, value_sources, some_source, derives, macro_named
 
 UNITS = ['lib/loop_timerlist.c', 'lib/loop.c', 'lib/loop_job.c', 'lib/loop_poll.c', 'lib/loop_poll_epoll.c']
 DECIDES = ('Decides that no narrowing conversion on the way from the timer heap to the kernel poll timeout can turn a pending '
@@ -15,8 +15,9 @@ RULES = {
     'R5': 'the timer heap stays a min-heap on expire_time: index arithmetic (2i+1, 2i+2, (i-1)/2), entry comparison on expire_time, add sifts up, delete repairs in both directions depending on how the moved entry compares with the removed one',
     'R4': 'expire_time_get / expire_time_remaining return non-zero only when the handle check passed and state == ACTIVE; is_running is expire_time_get > 0',
     'R6': 'the pending-work count that keeps the loop from sleeping is not corrupted: level->todo is decremented only for items that were counted in it (= C08.R1 todo accounting)',
+    'R7': 'an interrupted wait is not resumed with the timeout computed before it: from the EINTR edge of the descriptor driver\'s wait the wait call is not reached again without the timeout having been set anew (or the driver returns to the loop, which recomputes it)',
 }
-FLOORS = {'R1': 5, 'R2': 4, 'R3': 6, 'R4': 5, 'R5': 10, 'R6': 2}
+FLOORS = {'R1': 5, 'R2': 4, 'R3': 7, 'R4': 5, 'R5': 10, 'R6': 2, 'R7': 1}
 
 I32_MAX = 2**31 - 1
 
@@ -29,6 +30,7 @@ def run(ctx):
     r5(ctx)
     from rules import c08
     c08.todo_accounting(ctx, 'R6')
+    r7(ctx)
 
 
 def _int(prog, ty):
@@ -193,14 +195,23 @@ def r3(ctx):
     ctx.check('R3', 'stops-at-first-unexpired', stop_ok, f, 'the scan stops at the first unexpired timer',
               'the scan continues past an unexpired heap top')
     ad = prog.fn('timerlist_add_duration')
+    durp = ad.params[3]['n']
     sts = list(ad.stores(field='expire_time'))
-    ok = len(sts) == 1
-    if ok:
-        r = unwrap(sts[0].rhs)
-        ok = r.get('k') == 'bin' and r['op'] == '+' and \
-            {callee_of(unwrap(r['l'])) or estr(r['l']), callee_of(unwrap(r['r'])) or estr(r['r'])} == {'qb_util_nano_current_get', ad.params[3]['n']}
+    from_clock = [st for st in sts if st.rhs is not None and any(n.get('k') == 'call' and callee_of(n) == 'qb_util_nano_current_get' for n in walk(st.rhs))]
+    adds = [st for st in sts if (st.d['op'] == '+=' and estr(unwrap(st.rhs)) == durp) or
+            (st.d['op'] == '=' and unwrap(st.rhs).get('k') == 'bin' and unwrap(st.rhs)['op'] == '+' and any(n.get('k') == 'var' and n['n'] == durp for n in walk(st.rhs)))]
+    ok = bool(from_clock) and bool(adds)
     ctx.check('R3', 'expire_time=now+duration', ok, sts[0] if sts else ad, 'expire_time = monotonic now + duration',
-              'expire_time is %s' % (estr(sts[0].rhs) if sts else None))
+              'expire_time is %s' % (estr(sts[0].rhs) if sts else 'never stored'))
+
+    def no_wrap(a, fb):
+        # duration <= MAX - now   (any orientation atoms_of produces)
+        return a.ls == durp and a.op in ('<=', '<') and unwrap(a.r).get('k') == 'bin' and unwrap(a.r)['op'] == '-'
+    okw = bool(adds) and all(ad.uncut_path(st, no_wrap) is None for st in adds)
+    ctx.check('R3', 'duration-addition-cannot-wrap', okw, adds[0] if adds else ad,
+              'the duration is added only when now + duration fits 64 bits (otherwise the expiry saturates)',
+              'now + duration is computed without a wrap test: a duration larger than what is left of the 64-bit clock (UINT64_MAX as "never") wraps round to a time in the past '
+              'and the timer is dispatched in the next iteration')
     md = prog.fn('timerlist_msec_duration_to_expire')
     divs = [n for ev in md.events('STORE') for n in walk(ev.rhs or {}) if n.get('k') == 'bin' and n['op'] == '/' and field_is(unwrap(n['l']).get('l', {}), 'expire_time')]
     ctx.check('R3', 'ns-to-ms-divisor', len(divs) == 1 and cval(unwrap(divs[0]['r'])) == 1000000, md,
@@ -370,3 +381,31 @@ def r5(ctx):
     conds = [b for b in dn.blocks.values() if b.cond is not None and has_call(b.cond, 'timerlist_entry_cmp')]
     ok = len(conds) == 2 and all(last_of_comma(b.cond).get('k') == 'bin' and last_of_comma(b.cond)['op'] == '<' and cval(unwrap(last_of_comma(b.cond)['r'])) == 0 for b in conds)
     ctx.check('R5', 'sift-down:picks-smaller-child', ok, dn, 'sift down moves towards the smaller child (both children examined)', 'sift down does not examine both children for the smaller one')
+
+
+def r7(ctx):
+    prog = ctx.prog
+    f = prog.fn('_poll_and_add_to_jobs_')
+    waits = list(f.calls('epoll_wait'))
+    if len(waits) != 1:
+        raise AnalysisBroken('_poll_and_add_to_jobs_: epoll_wait calls = %d' % len(waits))
+    w = waits[0]
+    tv = estr(unwrap(w.args[3]))
+    eintr = []
+    for b in f.blocks.values():
+        if b.cond is None:
+            continue
+        for (t, lab) in b.succs:
+            if lab in (True, False) and any(a.op == '==' and (macro_named(a.r, 'EINTR') or a.rc == 4) and 'errno' in a.ls for a in atoms_of(b.cond, lab)):
+                eintr.append((b, t))
+    if not eintr:
+        ctx.ok('R7', 'interrupted-wait-not-resumed-with-old-timeout', w, 'the driver has no EINTR special case: an interrupted wait returns to the loop')
+        return
+    bad = False
+    for (b, t) in eintr:
+        hits, _e, _n = f.search(('edge', b.id, t), goal=lambda ev: ev.d is w.d, stop=lambda ev: ev.kind == 'STORE' and estr(ev.lhs) == tv)
+        bad = bad or bool(hits)
+    ctx.check('R7', 'interrupted-wait-not-resumed-with-old-timeout', not bad, w,
+              'after EINTR the wait is not entered again with the old timeout',
+              'after EINTR the driver waits again with the timeout computed before the first wait: the timers are put off by the time already slept, '
+              'and a signal that keeps arriving postpones them for ever')
